@@ -281,4 +281,84 @@ def proj (cfg : Cfg) (b : Bytes) (s : Node) : Node :=
   { db := s.db.filter (fun e => decide (scanPrefix b <+: e.1)),
     fs := s.fs.filter (fun e => decide (userDir cfg b <+: e.1)) }
 
+/-! ### concurrent clients: a collection-scoped request is two atomic steps
+
+`CollectionURIMiddleware` first fetches the collection record (`ClusterNode.GetCollection`: one read
+of the node database under the key `user/collection`), then the handler acts with that record —
+other requests may run in between.  `step` above is the special case in which nothing does. -/
+
+/-- the collection a request is addressed to (`/collections/{id}/…`), if any -/
+def Op.coll? : Op → Option Bytes
+  | .get c => some c
+  | .drop c => some c
+  | .insert c _ _ => some c
+  | .update c _ => some c
+  | .delete c _ => some c
+  | .search c => some c
+  | _ => none
+
+/-- the handler of a collection-scoped request, run on the node as it is NOW with the record the
+middleware fetched EARLIER -/
+def body (cfg : Cfg) (s : Node) (u : Bytes) : Op → Coll → Node × Resp
+  | .get _, col => getBody cfg s col
+  | .drop c, col => dropBody cfg s u c col
+  | .insert c sid pts, col => insertBody cfg s u c sid pts col
+  | .update _ pts, col => updateBody cfg s pts col
+  | .delete _ ids, col => deleteBody cfg s ids col
+  | .search _, col => searchBody cfg s col
+  | _, _ => (s, .bad)
+
+/-- one client connection: its tenant, the requests it has still to send, the request in flight
+(between the look-up and the handler) with the record the look-up returned, and the responses it
+has received (latest first) -/
+structure Client where
+  user : Bytes
+  todo : List Op
+  inflight : Option (Op × Coll) := none
+  got : List Resp := []
+  deriving Repr
+
+/-- one atomic step of a client: finish the request in flight, or start the next one -/
+def cstep (cfg : Cfg) (s : Node) (t : Client) : Node × Client :=
+  match t.inflight with
+  | some (op, col) =>
+    let r := body cfg s t.user op col
+    (r.1, { t with inflight := none, got := r.2 :: t.got })
+  | none =>
+    match t.todo with
+    | [] => (s, t)
+    | op :: rest =>
+      if !acceptUser cfg.variant t.user then (s, { t with todo := rest, got := .rejected :: t.got }) else
+      match op.coll? with
+      | none =>
+        let r := step cfg s t.user op
+        (r.1, { t with todo := rest, got := r.2 :: t.got })
+      | some c =>
+        if !validUriId c then (s, { t with todo := rest, got := .bad :: t.got }) else
+        match dbGet s.db (key t.user c) with
+        | none => (s, { t with todo := rest, got := .notFound :: t.got })
+        | some col => (s, { t with todo := rest, inflight := some (op, col) })
+
+/-- a schedule names, step by step, the client that moves (indices without a client are skipped) -/
+def crun (cfg : Cfg) : Node → List Client → List Nat → Node × List Client
+  | s, ts, [] => (s, ts)
+  | s, ts, i :: sched =>
+    match ts[i]? with
+    | none => crun cfg s ts sched
+    | some t =>
+      let r := cstep cfg s t
+      crun cfg r.1 (ts.set i r.2) sched
+
+/-- the same schedule when only the clients of tenant `b` ever get to move -/
+def crunOnly (cfg : Cfg) (b : Bytes) : Node → List Client → List Nat → Node × List Client
+  | s, ts, [] => (s, ts)
+  | s, ts, i :: sched =>
+    match ts[i]? with
+    | none => crunOnly cfg b s ts sched
+    | some t =>
+      if t.user = b then
+        let r := cstep cfg s t
+        crunOnly cfg b r.1 (ts.set i r.2) sched
+      else crunOnly cfg b s ts sched
+
 end Sema.C16
